@@ -15,12 +15,12 @@ CHECKS = {
  "C09": dict(engine="engine-A", cat="model_checking", ref="DESIGN.md 4, 7/C09", note=SCHED_NOTE, tech=SCHED_TECH,
    text="every schedule of 28 closed drivers of the real engine/pool.ThreadPool (1-3 workers, 1-3 tasks single/burst, WaitAll, "
         "JoinAll with a task that submits a task, resize sequences incl. negative counts with tasks arriving from a second thread, the queue-filling "
-        "callback with threshold 1) within preemption "
+        "callback with threshold 1 while a second thread waits in WaitAll) within preemption "
         "bound 1-3 and free-choice bound 3 is executed; oracle: no deadlock/livelock while a worker exists and a task is queued, "
         "every task ran exactly once, WaitAll/JoinAll/SetWorkerCount post-conditions"),
  "C02": dict(engine="engine-A", also=["engine-B"], cat="model_checking", ref="DESIGN.md 4, 7/C02", note=SCHED_NOTE, tech=SCHED_TECH,
    text="every schedule (preemption bound 1-3, free-choice bound 3) of 44 drivers of the real engine.Processor: 12 cascade shapes "
-        "(fan-out, depth, skipped child, failing rules at any position, two rules with/without fail-on-first-error, non-triggering "
+        "(fan-out, depth, skipped child, failing rules at any position, two children failing at the same time, two rules with/without fail-on-first-error, non-triggering "
         "root) x 1-3 workers plus two cascades in flight; oracle evaluated at the instant AddEventAndWait returns (all actions of "
         "the cascade finished, exactly the expected rules ran, error report exact) and at quiescence (finish handler exactly once, "
         "all monitors finished, no deadlock, no panic, no 'left events behind'); pairs of cascades with a non-triggering root; plus (Engine B) the "
@@ -32,7 +32,8 @@ CHECKS = {
         "exit kinds (normal, raise, runtime error, return, break, continue); oracle: occupancy of a name never exceeds 1 (harness enter/leave "
         "functions called from ECAL), a schedule with two different names occupied is found, nested same-name entry never blocks, no deadlock, "
         "no lost update on a counter updated only inside the block, owner table and mutexes released at the end; thread ids are allocated inside "
-        "the threads and must be pairwise distinct; no unordered access to a field of a lock-carrying struct (e.g. the thread-id counter)"),
+        "the threads and must be pairwise distinct; no unordered access to a field of a lock-carrying struct (e.g. the thread-id counter); a host "
+        "thread keeps its id over Finish / Start of the processor and still excludes the new workers"),
  "C11": dict(engine="engine-A", also=["engine-B"], cat="model_checking", ref="DESIGN.md 4, 7/C11", note=SCHED_NOTE, tech=SCHED_TECH,
    text="every schedule (preemption bound 1-2, free-choice bound 1) of 7 drivers: 2-3 events with every mix of failing/succeeding payloads "
         "trigger the same ECAL sink (and two sinks sharing a global function) on 2-3 workers, each added with wait from its own thread; oracle: "
@@ -42,7 +43,9 @@ CHECKS = {
         "sink triggered twice: a reflective snapshot of the whole AST + runtime-component tree (unexported fields, spare capacity) is identical before "
         "and after evaluation - the tree is shared by all concurrent invocations, so evaluation must not write to it; and for sink-like rule sets "
         "(0-9 sinks on test.* x 32 subsets of exact-kind sinks x 16 ordered event pairs) RuleIndex.Match returns exactly the matching sinks and "
-        "leaves the index (spare slice capacity included) untouched"),
+        "leaves the index (spare slice capacity included) untouched; differential isolation: for 15 sink bodies that write no global variable, event 2 "
+        "processed alone and processed after event 1 give the same observations and error report; a scheduled scenario in which two invocations write "
+        "different global variables without an ECAL mutex"),
  "C13": dict(engine="engine-A", also=["engine-B"], cat="model_checking", ref="DESIGN.md 4, 7/C13", note=SCHED_NOTE + "; the lexer goroutine of a Parse call is a free-running helper (single-producer/single-consumer pipe private to the call) whose accesses to instrumented variables are attributed to its owner thread for the race check", tech=SCHED_TECH,
    text="every schedule (preemption bound 1-3) of 17 drivers in which 2-3 threads run parser.Parse / ParseWithRuntime (and Validate+Eval of an "
         "interpolating string) on texts with if/elif/else, for, map literals, nested maps, a syntax error; scheduling points are the accesses to "
@@ -59,7 +62,8 @@ CHECKS = {
         "commands over {break, rmbreak, disablebreak} x lines {1, 2, 10, 12} + {rmbreak v, break vv:1, rmbreak vv} and of <= 4 (thorough 5) commands over "
         "a reduced alphabet (two lines): the table reported by status "
         "must equal a reference map and the thread must suspend exactly at the lines the reference says are active; (2) 17 selected configurations are explored under every schedule "
-        "with <= 2 (thorough 3) preemptions: all timings of the continue / stop command relative to the thread reaching its wait; oracle: the "
+        "with <= 2 (thorough 3) preemptions: all timings of the continue / stop command relative to the thread reaching its wait; (3) the four "
+        "continue commands while a SECOND program thread keeps entering and leaving functions; oracle: the "
         "thread always leaves suspension (no deadlock / endless polling), no panic, same outcome as undebugged, with break-on-error off the sequence "
         "of suspension lines equals the one derived from the line trace under every schedule, no unordered access to a debugger field"),
  "C16": dict(engine="engine-A", cat="model_checking", ref="DESIGN.md 5.3, 7/C16", note="default schedule only (the property is about the command interface, not about timing); canonical state = status output, per-thread (running, error, stack depth, line), breakpoint table and global variables; the debugger lock is read off the vsched shim through an overlay-added export seam", tech="explicit-state breadth-first search over the real debugger object: a state is the command history that reaches it, successors are built on fresh objects by replay, de-duplicated on a canonical observable form, invariant evaluated after every command",
@@ -80,7 +84,8 @@ CHECKS = {
         "activated unfinished monitors else -1; (iv) 5 concurrent drivers (2-3 workers, mixed priorities) under every schedule with <= 1-2 preemptions: "
         "no event is taken while a more urgent or older-equal event of its cascade is queued"),
  "C17": dict(engine="engine-B", cat="exploration", ref="DESIGN.md 5, 7/C17", note="lexical containment as the property defines it (symbolic links are not followed by the reference normaliser); file-system calls of util/import.go are observed through a mechanical build-time redirection of ioutil.ReadFile/os.Open/os.Stat to recording wrappers; an error is always an admissible answer", tech="bounded exhaustive enumeration of inputs against an independent reference model (stack-based lexical path normaliser) plus observation of every file-system call",
-   text="FileImportLocator.Resolve for every path of <= 5 (thorough 6) segments over {a, sub, .., ., '', a.b, ..a, 'a b'} with optional leading and "
+   text="FileImportLocator.Resolve for every path of <= 5 (thorough 6) segments over {a, sub, .., ., '', a.b, ..a, 'a b'} (and of <= 3 segments over 10 "
+        "segments with foreign separators and encodings: ..\\a, sub\\.., %2e%2e, ..;, NUL, ~) with optional leading and "
         "trailing slash x 7 spellings of the root (absolute, trailing slash, relative, ./, '.', nested with .., empty) over a file tree with sentinel "
         "files inside and outside the root (including a sibling directory whose name has the root as prefix): about 1.05 million cases quick; "
         "the same verdict through the interpreter's import statement for paths of <= 3-4 segments. Oracle: whatever is returned is the content of a "
@@ -89,7 +94,8 @@ CHECKS = {
    text="every sequence of <= 4 items (thorough also 5) over {identifier, number, :=, (, quoted strings incl. multi-byte, raw multi-line string, "
         "# comments (LF, CR LF terminated, containing a lone CR, unterminated), /* */ comments incl. multi-line} x separators {space, LF, CRLF, tab, none}: every token's Pos/Lline/Lpos must equal the "
         "recorded offset and the recomputed line/column (2.8 million cases quick); planted errors after every prefix of <= 3-4 filler "
-        "statements/comments: a stray ')' (parser.Error), `1 + \"a\"` (util.RuntimeError) must be reported at the recomputed line/column, "
+        "statements/comments: a stray ')' (parser.Error), `1 + \"a\"` (util.RuntimeError) and raise(...) with calls in its arguments (also over "
+        "several lines) must be reported at the recomputed line/column, "
         "and statement separation must be unaffected by comments: 22 statements starting with every kind of term in every ordered pair x 13 comment "
         "placements around the line break must parse like the comment-free text"),
  "C19": dict(engine="engine-B", cat="exploration", ref="DESIGN.md 5, 7/C19", note="number conversion is compared only where Go defines it exactly (integral values inside the parameter type's range); Bessel functions of order >= 2^31 are excluded as non-termination inside bridged Go code", tech="bounded exhaustive enumeration of function x argument-vector pairs with independently computed expected conversions",
@@ -123,7 +129,8 @@ CHECKS = {
         "literal itself, raw strings come back byte-identical, and well-nested literals equal the one-pass reference (substituted text never rescanned); failing pieces raise(x) and x+1 must not "
         "evaluate the variable's content; re-entrant literals: func w(n) whose literal of 1-3 pieces over {<, >, space, {{n}}, {{w(n - 1)}}} interpolates "
         "a call to itself, n = 0..3, must equal the recursive reference (the literal node is re-entered while one of its evaluations is in progress); "
-        "pieces include the escaped and the lone backslash (raw strings ending in a backslash); a raw string is never rejected"),
+        "pieces include the escaped and the lone backslash (raw strings ending in a backslash); a raw string is never rejected; literals of <= 4 WHOLE "
+        "expressions with a counting tick(): evaluated exactly once per occurrence, left to right"),
  "C08": dict(engine="engine-B", cat="exploration", ref="DESIGN.md 5, 7/C08", note="tree equality = node kind, token value, identifier flag, raw-vs-interpolating flag and child structure (positions, comments, blank lines ignored); four recorded findings (see known_findings.json) are pinned by the repository's own tests or need a redesign of comment placement", tech="bounded exhaustive enumeration of parseable programs with the round trip parse -> print -> parse -> print as oracle",
    text="every binary operator nested under every other on either side with and without parentheses, prefix operators on every operand and over every "
         "parenthesised pair, inside calls and index expressions (thorough: all operator triples in 5 parenthesisations); a 34-program corpus covering "
@@ -143,9 +150,11 @@ CHECKS = {
         "name tree, against a lexical reference; (5) purity: a reflective snapshot of the rule index (unexported fields, spare slice capacity) is "
         "unchanged by Match / IsTriggering, which several workers call without a lock; (6) Engine A: two threads adding events (same / different "
         "names and kinds) to a running processor under every schedule with <= 1-2 preemptions; (7) the scope decision reached from ECAL: 9 sinks with "
-        "scopematch x 81 scope maps given as fourth argument of addEventAndWait / addEvent"),
+        "scopematch x 81 scope maps given as fourth argument of addEventAndWait / addEvent; (8) rule sets that change over a restart: no rule or one "
+        "rule (9 kind patterns with wildcards in every position), events of 5 kinds, Finish, a second rule, Start, the same events (90 histories)"),
  "C03": dict(engine="engine-B", cat="exploration", ref="DESIGN.md 5.2, 7/C03, 9a", note="reference semantics encode only what ecal.md and the property statement define; Unspecified (counted, not compared): zero divisors, % outside non-negative integers, ordering across kinds, equality/membership of containers, like/hasPrefix/hasSuffix on non-strings, membership in non-lists; left-to-right operand evaluation", tech="bounded exhaustive enumeration of expression trees against an independent reference evaluator that works on the generator's own trees (precedence from the stated table, not from the parser)",
-   text="all x op y over 13 operands (numbers incl. 0 and fractions, strings, booleans, null, variables, a list) x 19 binary operators; prefix -, +, "
+   text="all x op y over 23 operands (numbers incl. 0 and fractions, strings incl. interpolating literals, booleans, null, variables, call results, "
+        "list elements, map fields, list literals incl. the empty list) x 19 binary operators; prefix -, +, "
         "not on either operand and over the parenthesised pair; all x op1 y op2 z unparenthesised (reference tree built by precedence climbing over "
         "the stated table) and in both parenthesisations over 7 operands of every kind; each in 2-3 layouts (spaces, newline after every operator, "
         "redundant parentheses): 950 000 evaluations quick, 490 000 with a defined result (thorough adds all operator triples over 4 operands). "
@@ -166,7 +175,8 @@ CHECKS = {
         "sink next to a second sink and a second event; every token sequence (C07 generator, length <= 3 full alphabet, 4-5 reduced) that the parser "
         "accepts, validated and evaluated (2 million evaluations quick). Oracle: no panic, no killed worker; an error raised by a statement is "
         "catchable by try/except; a failing sink does not fail its caller. The universe includes NaN and +-Inf; built-in arguments are also reached "
-        "through a call, an index, a field and parentheses (argument expression shapes); caught errors whose trace runs through commented calls"),
+        "through a call, an index, a field and parentheses (argument expression shapes); caught errors whose trace runs through commented calls; a "
+        "malformed regular expression is in the universe and every failing case is evaluated a second time inside try/except"),
  "C05": dict(engine="engine-B", cat="exploration", ref="DESIGN.md 5.2, 7/C05, 9a", note="reading an undefined name yields NULL (pinned by the suite); every block is entered once per program; reads of the argument of add/del after the call are left open; a failing statement inside try has no effect", tech="bounded exhaustive enumeration of programs and container operation sequences against boring reference models written in Go (environment chain, closures as Go values, slice/map model)",
    text="scoping: global definition x outer block kind (if, for, function, mutex, try) x outer statement (none, assignment, let) x inner block kind x inner "
         "statement x late let, probed at three levels (900 programs) against an environment-chain model; functions: parameters x 5 default kinds x 0-3 "
@@ -176,7 +186,8 @@ CHECKS = {
         "<= 3 (thorough 4) operations over 14 list/map operations on two aliased names followed by 10 probes, against a Go slice/map model; generated "
         "inheritance shapes (1-3 super templates x with/without own constructor x call order, super[i] by position); varsScope.GetValue / SetValue with "
         "every dotted container path of <= 3 (thorough 4) segments over {k, z, n, a, x, 0, 1, 2, -1, -3, 5} on a nested list/map structure: reads of "
-        "existing paths, write-then-read, frame condition over all other paths, a failing write changes nothing, never a panic"),
+        "existing paths, write-then-read, frame condition over all other paths, a failing write changes nothing, never a panic; maps holding a "
+        "number key and the equally spelled string key"),
 }
 
 ENGINES = [
